@@ -489,9 +489,21 @@ pub trait BackendTransaction {
                             */
                             IdList::Indexed(r)
                         }
-                        (IdList::Indexed(ia), IdList::Partial(ib))
-                        | (IdList::Partial(ia), IdList::Indexed(ib))
-                        | (IdList::Partial(ia), IdList::Partial(ib)) => {
+                        // A partial id list for the and-not term is only a candidate set: a
+                        // superset of the entries that really match the negated term. Removing
+                        // it from our candidates would also remove entries that do NOT match
+                        // the negated term, and the entry filter test can never bring them
+                        // back. Keep our candidates and let the filter test apply the negation.
+                        (IdList::Indexed(ia), IdList::Partial(_))
+                        | (IdList::Partial(ia), IdList::Partial(_)) => IdList::Partial(ia),
+                        (IdList::Indexed(ia), IdList::PartialThreshold(_))
+                        | (IdList::PartialThreshold(ia), IdList::PartialThreshold(_))
+                        | (IdList::PartialThreshold(ia), IdList::Partial(_))
+                        | (IdList::Partial(ia), IdList::PartialThreshold(_)) => {
+                            IdList::PartialThreshold(ia)
+                        }
+                        // A fully indexed and-not term is exact, so it can be removed.
+                        (IdList::Partial(ia), IdList::Indexed(ib)) => {
                             let r = ia.andnot(ib);
                             // DO trigger threshold on partials, because we have to apply the filter
                             // test anyway, so we may as well shortcut at this point.
@@ -502,14 +514,8 @@ pub trait BackendTransaction {
                                 IdList::Partial(r)
                             }
                         }
-                        (IdList::Indexed(ia), IdList::PartialThreshold(ib))
-                        | (IdList::PartialThreshold(ia), IdList::Indexed(ib))
-                        | (IdList::PartialThreshold(ia), IdList::PartialThreshold(ib))
-                        | (IdList::PartialThreshold(ia), IdList::Partial(ib))
-                        | (IdList::Partial(ia), IdList::PartialThreshold(ib)) => {
+                        (IdList::PartialThreshold(ia), IdList::Indexed(ib)) => {
                             let r = ia.andnot(ib);
-                            // DO trigger threshold on partials, because we have to apply the filter
-                            // test anyway, so we may as well shortcut at this point.
                             if r.below_threshold(thres) && f_rem_count > 0 {
                                 let setplan = FilterPlan::AndPartialThreshold(plan);
                                 return Ok((IdList::PartialThreshold(r), setplan));
